@@ -11,26 +11,31 @@ def sh(*a, **kw):
     return subprocess.run(a, capture_output=True, text=True, **kw)
 
 
+REPO = os.environ.get("SEED_REPO", "/repo")  # SEED_REPO=<scratch worktree at /repo HEAD> keeps /repo untouched
+
+
 def main():
     ids = sys.argv[1:] or sorted(os.path.basename(p) for p in glob.glob(os.path.join(V, "seeded", "*")) if os.path.isdir(p))
-    assert sh("git", "-C", "/repo", "status", "--porcelain").stdout.strip() == "", "/repo not clean"
+    assert sh("git", "-C", REPO, "status", "--porcelain").stdout.strip() == "", f"{REPO} not clean"
+    if REPO != "/repo":
+        sh("git", "-C", REPO, "checkout", "--detach", sh("git", "-C", "/repo", "rev-parse", "HEAD").stdout.strip())
     for sid in ids:
         d = os.path.join(V, "seeded", sid)
         meta = json.load(open(os.path.join(d, "meta.json")))
         checks = meta.get("checks") or [meta["property"]]
-        r = sh("git", "-C", "/repo", "apply", os.path.join(d, "patch.diff"))
+        r = sh("git", "-C", REPO, "apply", os.path.join(d, "patch.diff"))
         if r.returncode:
             print(sid, "PATCH DOES NOT APPLY", r.stderr[:200])
             continue
         det = {}
         try:
             for c in checks:
-                env = dict(os.environ, VERIF_EVIDENCE_DIR="/tmp/verif-ev")
+                env = dict(os.environ, VERIF_EVIDENCE_DIR="/tmp/verif-ev", VERIF_REPO=REPO)
                 p = sh(os.path.join(V, "check"), c, "--tier", "quick", env=env, cwd=V)
                 sigs = [l.split("sig=")[1].split(" ")[0] for l in p.stdout.splitlines() if "sig=" in l and "check=" in l]
                 det[c] = {"exit": p.returncode, "violation_sigs": sigs[:6]}
         finally:
-            sh("git", "-C", "/repo", "checkout", "--", ".")
+            sh("git", "-C", REPO, "checkout", "--", ".")
         meta["detected_by"] = sorted(c for c, v in det.items() if v["exit"] == 1)
         meta["check_results"] = det
         json.dump(meta, open(os.path.join(d, "meta.json"), "w"), indent=1)
